@@ -62,6 +62,12 @@ class Tr:
                 a, ka = self.expr(e.left)
                 b, kb = self.expr(e.right)
                 return "(%s %s %s)" % (self.d["pow"], self.num(a, ka), self.num(b, kb)), "q"
+            if isinstance(e.op, ast.BitAnd):
+                a, ka = self.expr(e.left)
+                b, kb = self.expr(e.right)
+                if ka != "b" or kb != "b":
+                    raise TranslateError("& of non-boolean operands")
+                return "(%s && %s)" % (a, b), "b"
             ops = {ast.Add: self.d["add"], ast.Sub: self.d["sub"], ast.Mult: self.d["mul"], ast.Div: self.d["div"]}
             for cls, name in ops.items():
                 if isinstance(e.op, cls):
@@ -83,8 +89,17 @@ class Tr:
             if isinstance(op, ast.GtE):
                 return self.d["le"](b, a), "b"
             raise TranslateError("comparison " + type(op).__name__)
+        if isinstance(e, ast.Subscript) and isinstance(e.value, ast.Name) and isinstance(e.slice, ast.Name):
+            # x[mask] on the right-hand side of `r[mask] = ...`: the element itself (the statement is about the selected elements)
+            if getattr(self, "mask", None) != e.slice.id:
+                raise TranslateError("subscript outside a masked assignment with the same mask")
+            return e.value.id, self.kinds.get(e.value.id, "q")
         if isinstance(e, ast.Call):
             fn = ast.unparse(e.func)
+            if fn == "np.asanyarray" and len(e.args) == 1 and not e.keywords:
+                return self.expr(e.args[0])          # conversion to an array: the element is unchanged
+            if fn == "np.zeros_like" and len(e.args) == 1 and not e.keywords:
+                return self.d["lit"](0), "q"
             if fn in ("np.abs", "abs") and len(e.args) == 1:
                 t, k = self.expr(e.args[0])
                 return "(%s %s)" % (self.d["abs"], self.num(t, k)), "q"
@@ -126,6 +141,20 @@ class Tr:
                 t, k = self.expr(s.value)
                 self.kinds[s.targets[0].id] = k
                 out.append("let %s := %s in" % (s.targets[0].id, t))
+            elif (isinstance(s, ast.Assign) and len(s.targets) == 1 and isinstance(s.targets[0], ast.Subscript)
+                  and isinstance(s.targets[0].value, ast.Name) and isinstance(s.targets[0].slice, ast.Name)
+                  and self.kinds.get(s.targets[0].slice.id) == "b"):
+                # r[mask] = e  (boolean-mask assignment): the selected elements get e, the others keep their value
+                r, m = s.targets[0].value.id, s.targets[0].slice.id
+                if r not in self.kinds:
+                    raise TranslateError("masked assignment to an unknown array")
+                self.mask = m
+                try:
+                    t, k = self.expr(s.value)
+                finally:
+                    self.mask = None
+                out.append("let %s := (if %s then %s else %s) in" % (r, m, self.num(t, k), self.num(r, self.kinds[r])))
+                self.kinds[r] = "q"
             elif isinstance(s, ast.AugAssign) and isinstance(s.target, ast.Name):
                 ops = {ast.Add: self.d["add"], ast.Sub: self.d["sub"], ast.Mult: self.d["mul"]}
                 name = next((n for c, n in ops.items() if isinstance(s.op, c)), None)
